@@ -157,6 +157,17 @@ Section Model.
     destruct (assoc (lt_macros lt) nm) as [[[| |[]] d]|]; try discriminate H. reflexivity.
   Qed.
 
+  (** an accent macro with its argument *)
+  Lemma node_text_macro_accent sl st p e m nm post x comb :
+    accent_macro lt nm = Some comb ->
+    nt sl st (NMacro p e m nm post (Some ([[123%N]], [Some x]))) =
+    let '(t, st1) := nt sl st x in (accent_text lt comb (Some t), st1).
+  Proof.
+    unfold accent_macro. intros H. cbn [node_text].
+    destruct (assoc (lt_macros lt) nm) as [[[| |[]] d]|]; try discriminate H. injection H as <-.
+    cbn [t_repl t_discard]. destruct (nt sl st x) as [t st1]. reflexivity.
+  Qed.
+
   (** specials that are not in the text-spec table: their characters *)
   Lemma node_text_specials_absent sl st p e m ch a :
     assoc (lt_specials lt) ch = None -> nt sl st (NSpecials p e m ch a) = (ch, st).
